@@ -1,12 +1,118 @@
-(** C02 - label values and .org positions equal where the bytes really land (examples; theorems follow). *)
+(** C02 - label values and .org positions equal where the bytes really land.
+    Property theorems only; proofs are in Proofs/LayoutProofs.v and Proofs/Pass0Proofs.v.
+    The objects: [pass1] (sizes, label values, segment start addresses; src/builder/pass1.rs) and
+    [pass2] (evaluation, encoding, zero padding, appending; src/builder/pass2.rs) of Model/Passes.v,
+    run on the same segment list - for every list of segments, every device, every item mix. *)
 From Coq Require Import List ZArith NArith String.
 Import ListNotations.
-Require Import AvraV.Model.Base AvraV.Model.Ast AvraV.Model.Passes.
+Require Import AvraV.Model.Base AvraV.Model.Ast AvraV.Model.Device AvraV.Model.Eval AvraV.Model.Encode.
+Require Import AvraV.Model.Parse AvraV.Model.Passes AvraV.Gen.OpTable AvraV.Gen.Devices.
+Require Import AvraV.Proofs.LayoutProofs AvraV.Proofs.Pass0Proofs.
+Open Scope N_scope.
+
+(** (1) Instruction length: the bytes the encoder emits are 2 * the length in the operation table
+    (regenerated from src/instruction/operation.rs on every run) - two words exactly for jmp, call
+    and, except on the reduced core, lds/sts. *)
+Theorem C02_instruction_length : forall fuel c op args pc bs,
+  process fuel c op args pc = Ok bs ->
+  match op with OCustom _ => True | _ => N.of_nat (length bs) / 2 = fst (op_info (is_avr8l (dev c)) op) end.
+Proof. exact process_len. Qed.
+Print Assumptions C02_instruction_length.
+
+(** (2) Item by item: whatever item pass 1 keeps, pass 2 - run at the same position, on the same
+    device - advances its counter exactly as pass 1 did and appends exactly unit * advance bytes
+    (unit = 2 in flash, 1 in EEPROM); an item pass 1 drops moves nothing (or is a data-segment
+    reservation).  Covers instructions of both lengths, .db with odd and even byte counts (padded
+    to a word in flash, not in EEPROM), .dw/.dd/.dq, .byte in EEPROM, .set/.def/.undef, labels. *)
+Theorem C02_item : forall fuel t c1 cur out1 ci c1' cur' out1',
+  pass1_item t (c1, cur, out1) ci = Ok (c1', cur', out1') -> plain ci ->
+  dev c1' = dev c1 /\
+  ((out1' = out1 /\ cur' = cur \/ out1' = out1 /\ t = SData) \/
+   exists ci', out1' = (out1 ++ [ci'])%list /\ fst ci' = fst ci /\
+     forall c2 out2 c2' cur2 out2', dev c2 = dev c1 ->
+       pass2_item fuel t (c2, cur, out2) ci' = Ok (c2', cur2, out2') ->
+       dev c2' = dev c2 /\ cur2 = cur' /\
+       exists bs, out2' = (out2 ++ bs)%list /\ N.of_nat (length bs) = unit_of t * (cur' - cur)).
+Proof. exact item_agree. Qed.
+Print Assumptions C02_item.
+
+(** (3) .org and gaps: from an image that ends at offset [off] (in units), padding to [addr >= off]
+    appends zeros only and makes the next byte land at exactly unit * addr.  (A start address below
+    the running offset is refused by pass 1: see [C02_layout], conjunct off <= address.) *)
+Theorem C02_org_gap : forall u img off addr, u = 1 \/ u = 2 ->
+  N.of_nat (length img) = u * off -> off <= addr -> u * addr < 2147483648 ->
+  pad_to u img addr = (img ++ repeat 0 (N.to_nat (u * (addr - off))))%list.
+Proof. exact pad_to_spec. Qed.
+Print Assumptions C02_org_gap.
+
+(** (4) Whole programs.  For every segment list on which both passes succeed, on a device whose
+    memories are below 2^31 bytes: the images stay within the device, and every flash / EEPROM
+    segment of the program - wherever it stands in the arbitrarily interleaved list - is found in
+    the final image as  before ++ frag ++ after  with |before| = unit * its start address (the
+    address written with .org, or the running offset when none was given) and frag exactly the
+    bytes pass 2 emits for the items of that segment, of the length pass 1 computed.  Nothing is
+    overwritten, shifted or dropped: later segments only append. *)
+Theorem C02_layout : forall fuel c segs r1 r2,
+  pass1 c segs = Ok r1 -> pass2 fuel (p1_ctx r1) (p1_segs r1) = Ok r2 -> Forall plain_seg segs ->
+  2 * flash_size (dev c) < lim31 -> eeprom_size (dev c) < lim31 ->
+  N.of_nat (length (p2_code r2)) <= 2 * flash_size (dev c) /\ N.of_nat (length (p2_eeprom r2)) <= eeprom_size (dev c) /\
+  forall pre sg post, segs = (pre ++ sg :: post)%list -> seg_t sg <> SData ->
+  exists sg' fin c2 c2' frag before after,
+    nth_error (p1_segs r1) (length pre) = Some sg' /\ seg_t sg' = seg_t sg /\ (address sg = 0 \/ address sg' = address sg) /\
+    p2fold fuel (seg_t sg') (items sg') (Ok (c2, address sg', [])) = Ok (c2', fin, frag) /\
+    (match seg_t sg with SCode => p2_code r2 | _ => p2_eeprom r2 end) = (before ++ frag ++ after)%list /\
+    N.of_nat (length before) = unit_of (seg_t sg) * address sg' /\
+    N.of_nat (length frag) = unit_of (seg_t sg) * (fin - address sg').
+Proof. exact layout. Qed.
+Print Assumptions C02_layout.
+
+(** (5) Labels.  The value pass 1 gives a label - and which every reference in pass 2 reads - is:
+    in flash and EEPROM the address a at which pass 2, having emitted the items before the label,
+    stands (it has then appended unit * (a - start) bytes of the segment's fragment, which (4)
+    places at unit * start: the item after the label lands at unit * a); in the data segment the
+    segment start (RAM start of the device, or the .org address) plus the bytes reserved before it. *)
+Theorem C02_label : forall fuel c segs r1,
+  pass1 c segs = Ok r1 -> Forall plain_seg segs ->
+  forall pre sg post ipre cp name ipost, segs = (pre ++ sg :: post)%list -> items sg = (ipre ++ (cp, ILabel name) :: ipost)%list ->
+  exists sg', nth_error (p1_segs r1) (length pre) = Some sg' /\ (address sg = 0 \/ address sg' = address sg) /\
+    match seg_t sg with
+    | SData => lookup name (labels (p1_ctx r1)) = Some (SData, address sg' + reserved ipre)
+    | t => exists a kpre kpost, items sg' = (kpre ++ kpost)%list /\ lookup name (labels (p1_ctx r1)) = Some (t, a) /\ address sg' <= a /\
+             forall c2 c2' cur2 bs, dev c2 = dev c ->
+               p2fold fuel t kpre (Ok (c2, address sg', [])) = Ok (c2', cur2, bs) ->
+               cur2 = a /\ N.of_nat (length bs) = unit_of t * (a - address sg')
+    end.
+Proof. exact label_lands. Qed.
+Print Assumptions C02_label.
+
+(** (6) The hypothesis [plain_seg] (no macro call left in the list) is met by whatever pass 0
+    produces and pass 1 accepts; and every device of the table (regenerated from src/device.rs)
+    and the default device satisfy the size bounds of (4). *)
+Theorem C02_hypotheses_met : forall fuel inc macroses depth parsed st0 s0 c r1,
+  segs st0 = [] -> pass0 fuel inc macroses depth parsed st0 = Ok s0 ->
+  pass1 c (non_empty (segs s0)) = Ok r1 -> Forall plain_seg (non_empty (segs s0)).
+Proof.
+  intros fuel inc macroses depth parsed st0 s0 c r1 H0 Hp0 Hp1.
+  eapply pass1_plain; [|exact Hp1]. unfold non_empty, code_plain. apply Forall_forall. intros sg Hin.
+  apply filter_In in Hin. destruct Hin as (Hin & _).
+  pose proof (pass0_plain fuel inc macroses depth parsed st0 s0) as H. rewrite H0 in H. specialize (H (Forall_nil _) Hp0).
+  exact (proj1 (Forall_forall _ _) H sg Hin).
+Qed.
+Print Assumptions C02_hypotheses_met.
+Theorem C02_devices_bounded :
+  forallb (fun d => (2 * flash_size d <? lim31) && (eeprom_size d <? lim31)) (default_device :: map snd devices) = true.
+Proof. vm_compute. reflexivity. Qed.
+Print Assumptions C02_devices_bounded.
+
+(** Non-vacuity and examples: programs on which every pass succeeds, with labels made visible through .dw tables. *)
 Definition images (src : string) : option (list N * list N * N) :=
   match build_str 200 (list_ascii_of_string src) with Ok b => Some (b_code b, b_eeprom b, b_ram_filling b) | _ => None end.
 Definition nl := String (Ascii.ascii_of_N 10) EmptyString.
+Local Open Scope string_scope.
 Example C02_examples :
   images ("nop" ++ nl ++ ".org 3" ++ nl ++ "here: .db 1" ++ nl ++ " .dw here" ++ nl) = Some ([0;0;0;0;0;0;1;0;3;0], [], 0)%N /\
   images (".dseg" ++ nl ++ "v: .byte 2" ++ nl ++ "w: .byte 1" ++ nl ++ ".cseg" ++ nl ++ " .dw v, w" ++ nl) = Some ([96;0;98;0], [], 3)%N /\
+  images (".eseg" ++ nl ++ " .db 1" ++ nl ++ "e: .db 2" ++ nl ++ ".cseg" ++ nl ++ " jmp l" ++ nl ++ "l: .dw e, l" ++ nl)
+     = Some ([12;148;2;0;1;0;2;0], [1;2], 0)%N /\
   images (".org 4" ++ nl ++ "nop" ++ nl ++ ".org 2" ++ nl ++ "nop" ++ nl) = None.
 Proof. vm_compute. repeat split; reflexivity. Qed.
